@@ -13,7 +13,8 @@ RULE = ("scenarios of 3..6 raw clients + one observer on a fresh ASan daemon, 2.
         "outgoing traffic (numbered tokens of all four message types - METHOD_RETURN/ERROR only as genuine answers to "
         "calls received in an earlier round - with and without NO_REPLY_EXPECTED / NO_AUTO_START, either byte order, to "
         "well-known names, unique names (live, departed, never issued), an unowned name and the driver (calls with known "
-        "answers), interleaved with RequestName (all 8 flag combinations) / ReleaseName of the probed names by 2..3 "
+        "answers); recipients and bystanders hold plain match rules and (plain / fewreplies variants) eavesdrop='true' rules "
+        "selecting traffic addressed to themselves and to others; interleaved with RequestName (all 8 flag combinations) / ReleaseName of the probed names by 2..3 "
         "candidate owners) is one byte stream that is cut into pieces; the pieces of all clients are written in a seeded "
         "interleaving, while some recipients do not read at all during the round (variants: large payloads so that the "
         "bus-side queue really fills, max_outgoing_bytes small so that the bus refuses, max_replies_per_connection small) "
@@ -21,7 +22,8 @@ RULE = ("scenarios of 3..6 raw clients + one observer on a fresh ASan daemon, 2.
         "wait for NameOwnerChanged of closed connections, two barrier passes over all survivors. Oracle "
         "(vf/models/unicast.py): owner = NameAcquired/NameLost in the RECIPIENT's own stream at the position of the "
         "delivery; type, fields 1..6,8,9 and body equal to what was sent; per (sender, recipient) send order; each token "
-        "delivered once XOR errored once (REPLY_SERIAL = its serial), nothing only if sender / possible addressee closed "
+        "read at most once by any connection whatever rules it holds, a non-owner may read one copy only if it holds an "
+        "eavesdrop rule selecting it (counted apart); addressed delivery once XOR errored once (REPLY_SERIAL = its serial), nothing only if sender / possible addressee closed "
         "in that round, or (not a call) the name was ownerless at some moment of the round; driver calls answered "
         "exactly once with the known answer and never shown to a client; every driver call of every survivor answered "
         "exactly once. distinct = (message type, flags&3, destination kind, outcome, ownership changes of the "
@@ -35,8 +37,13 @@ NOBODY = b"com.verif.Nobody"
 IFACES = [b"com.verif.I", b"com.verif.I.Sub", None]
 PATHS = [b"/", b"/com/verif/obj", b"/a/b/c"]
 MEMBERS = [b"Do", b"Changed", b"Ping"]
-BYSTANDER_RULES = [b"type='signal'", b"interface='com.verif.I'", b"type='method_call'", b"path='/com/verif/obj'",
-                   b"type='error'", b"type='method_return'"]
+PLAIN_RULES = [b"type='signal'", b"interface='com.verif.I'", b"type='method_call'", b"path='/com/verif/obj'",
+               b"type='error'", b"type='method_return'", b"member='Do'"]
+# eavesdrop rules select traffic addressed to their holder as well as to others (no destination key: dbus matches that
+# key against the owner of the name, which would need the ownership model)
+EAVES_RULES = [b"eavesdrop='true'", b"eavesdrop='true'", b"eavesdrop='true',type='method_call'", b"eavesdrop='true',type='signal'",
+               b"eavesdrop='true',type='method_return'", b"eavesdrop='true',type='error'", b"eavesdrop='true',interface='com.verif.I'",
+               b"eavesdrop='true',path='/com/verif/obj'", b"eavesdrop='true',member='Do'", b"type='signal',eavesdrop='true',member='Changed'"]
 
 
 def _expect_body(pred, text):
@@ -122,6 +129,7 @@ class Scenario(object):
             c.owed = []
             c.slow = False
             c.seq = 0
+            c.owned = {c.unique}
             self.clients.append(c)
         self.names = NAMES[:rng.choice([1, 1, 2])]
         self.cands = {}
@@ -129,11 +137,24 @@ class Scenario(object):
             self.cands[nm] = rng.sample(self.clients, rng.randint(2, min(3, n)))
         allc = set(c for cs in self.cands.values() for c in cs)
         self.senders = rng.sample(self.clients, rng.randint(1, min(3, n)))
+        # match rules, held from set-up to the end: plain ones for anybody; eavesdrop='true' ones for recipients (they
+        # select traffic addressed to the holder itself, which must still arrive once) and for bystanders (who are thereby
+        # granted one copy of other people's traffic).  The queue-limit variants keep their volumes: no eavesdroppers there.
+        eaves_ok = self.variant in ("plain", "fewreplies")
         for c in self.clients:
-            if c not in allc and rng.random() < 0.6:
-                rule = rng.choice(BYSTANDER_RULES)
-                c.bus_call(b"AddMatch", b"s", [rule])
-                self.steps.append("%s AddMatch %s (no eavesdrop)" % (self.name_of(c), rule.decode()))
+            texts = []
+            if rng.random() < (0.6 if c not in allc else 0.35):
+                texts.append(rng.choice(PLAIN_RULES))
+            if eaves_ok and rng.random() < (0.45 if c in allc else 0.3):
+                texts.append(rng.choice(EAVES_RULES))
+                if rng.random() < 0.3:
+                    texts.append(rng.choice(EAVES_RULES))
+            for rule in texts:
+                r = c.bus_call(b"AddMatch", b"s", [rule])
+                if r.msg.type != 2:
+                    raise RuntimeError("AddMatch(%r) refused: %r" % (rule, r))
+                c.view.rules.append(um.parse_simple_rule(rule))
+                self.steps.append("%s AddMatch %s" % (self.name_of(c), rule.decode()))
         # initial owners; the first candidate usually allows replacement so that hand-overs by replacement happen
         for nm in self.names:
             first = self.cands[nm][0]
@@ -433,9 +454,18 @@ class Scenario(object):
             c.take_inbox()
             for rec in c.log[c.mark:]:
                 m = rec.msg
-                if m.type == 1 and not (m.flags & 1) and m.known().get(7) != BUS:
+                k = m.known()
+                if k.get(7) == BUS:
+                    if m.type == 4 and k.get(6) == c.unique and len(m.body) == 1:
+                        if k.get(3) == b"NameAcquired":
+                            c.owned.add(m.body[0])
+                        elif k.get(3) == b"NameLost":
+                            c.owned.discard(m.body[0])
+                elif m.type == 1 and not (m.flags & 1):
                     tid = um.token_of(m, by_tid)
-                    if tid is not None and by_tid[tid].destkind != "driver":
+                    # only a call that was addressed to this connection is answered (an eavesdropped copy is not)
+                    if tid is not None and by_tid[tid].destkind != "driver" and by_tid[tid].dest in c.owned \
+                            and by_tid[tid] not in c.owed and not getattr(by_tid[tid], "answered", False):
                         c.owed.append(by_tid[tid])
             c.mark = len(c.log)
 
@@ -495,6 +525,8 @@ class Scenario(object):
             part.count("scenarios-with-a-socket-closed-in-mid-stream")
         if any(c.slow for c in self.clients):
             part.count("scenarios-with-slow-readers")
+        if any(r.get(b"eavesdrop") == b"true" for c in self.clients for r in c.view.rules):
+            part.count("scenarios-with-eavesdrop-rules")
         seen = set()
         for key, what, t, vidx in V:
             extra = {}
@@ -602,6 +634,11 @@ def run(tier, seed, replay=None, scale=1.0):
     r.require("delivered-while-ownership-changed", need(2000))
     r.require("rounds-with-deliveries-split-by-handover", need(40))
     r.require("error:LimitsExceeded", need(50))
+    r.require("eavesdropped-copies", need(2000))
+    r.require("addressed-recipient-held-a-matching-eavesdrop-rule", need(1500))
+    r.require("addressed-recipient-held-other-rules", need(1500))
+    for k in ("call:no-reply", "call", "signal", "return", "error"):
+        r.require("addressed+eavesdrop-rule:" + k, need(60))
     r.require("scenarios-with-slow-readers", need(100))
     r.require("scenarios-with-a-socket-closed-in-mid-stream", need(60))
     r.require("driver-calls-counted", need(5000))
